@@ -203,6 +203,8 @@ UNITS = [(1, 1), (2, 3), (0.5, 0.25), (10, 7)]
 
 
 def run(rec, cfg):
+    from mathy_core.parser import ExpressionParser
+
     rec.accept = {"layout"}
     attach_layout("C18")
     rng = cfg.rng("c18")
@@ -242,8 +244,21 @@ def run(rec, cfg):
         s = W9.random_shape(rng, rng.randint(9, 60), rng.choice([0.1, 0.3]))
         drive_shape(rec, s, [(1, 1)])
         rec.arm("shapes:random")
+    # deep chains / zig-zags and the shapes of long parsed sums
+    if cfg.shard == 2 % cfg.nshards:
+        from . import _rulecommon as RC
+
+        for s in (W9.chain(150, "L"), W9.chain(150, "R"), W9.zigzag(201), W9.zigzag(64), W9.chain(101, "L")):
+            drive_shape(rec, s, [(1, 1), (2, 3)])
+            rec.arm("shapes:deep")
+        for t in RC.long_texts()[:6]:
+            try:
+                drive_shape(rec, W9.shape_of(ExpressionParser().parse(t)), [(1, 1)])
+                rec.arm("shapes:long-expression")
+            except Exception:
+                pass
     # expression trees
-    from mathy_core.parser import ExpressionParser
+
     from ..workloads import text as WT
 
     for t in WT.corpus()[cfg.shard::cfg.nshards][: cfg.scale(15, 200)]:
